@@ -21,7 +21,7 @@ TCP_ADDR = ("srv.test", 8080)
 UNIX_ADDR = "/fake/srv.sock"
 
 # client request kinds
-KINDS = ["call", "notify", "batch", "invalid", "fail", "slow"]
+KINDS = ["call", "notify", "batch", "invalid", "fail", "slow", "truncated", "sysexit"]
 
 
 class Harness(object):
@@ -52,6 +52,10 @@ class Harness(object):
         self.execs[token] = self.execs.get(token, 0) + 1
         raise ValueError("boom-" + token)
 
+    def sysexit(self, token):
+        self.execs[token] = self.execs.get(token, 0) + 1
+        raise SystemExit("exit-" + token)
+
     def slow(self, token):
         self.execs[token] = self.execs.get(token, 0) + 1
         self.gates[token].wait()
@@ -75,6 +79,25 @@ class Harness(object):
         c.close()
         return r.status, data
 
+    def raw_truncated(self, body, declared):
+        """Declares `declared` body bytes, sends fewer, half-closes, and waits for the reply."""
+        import socket as _socket
+
+        s = netsched.FSock()
+        s.connect(TCP_ADDR if self.family == "tcp" else UNIX_ADDR)
+        head = "POST / HTTP/1.1\r\nHost: srv\r\nContent-Type: application/json\r\nContent-Length: %d\r\n\r\n" % declared
+        s.sendall(head.encode() + body)
+        s.shutdown(_socket.SHUT_WR)
+        data = b""
+        while True:
+            chunk = s.recv(65536)
+            if not chunk:
+                break
+            data += chunk
+        s.close()
+        status = int(data.split(b" ", 2)[1]) if data.startswith(b"HTTP/") else None
+        return status, data.partition(b"\r\n\r\n")[2]
+
     def client(self, ci):
         prog = self.clients[ci]
         for ri, kind in enumerate(prog):
@@ -94,6 +117,14 @@ class Harness(object):
                     self.results[key] = ("val", list(mc()))
                 elif kind == "invalid":
                     self.results[key] = ("raw",) + self.raw_post(b'{"jsonrpc": "2.0", "method": "echo", "params": ["%s"' % tok.encode())
+                elif kind == "truncated":
+                    self.results[key] = ("raw",) + self.raw_truncated(b'{"jsonrpc": "2.0", "method": "echo", "params": ["%s"' % tok.encode(), 200)
+                elif kind == "sysexit":
+                    try:
+                        p.sysexit(tok)
+                        self.results[key] = ("val", "no error")
+                    except jsonrpclib.ProtocolError as ex:
+                        self.results[key] = ("protocol-error", ex.args[0][0] if ex.args and isinstance(ex.args[0], tuple) else None, str(ex))
                 elif kind == "fail":
                     try:
                         p.fail(tok)
@@ -137,6 +168,7 @@ class Harness(object):
         srv.register_function(self.echo, "echo")
         srv.register_function(self.fail, "fail")
         srv.register_function(self.slow, "slow")
+        srv.register_function(self.sysexit, "sysexit")
         life = self.lifecycle
         serving = None
         self.phase = "constructed"
@@ -225,7 +257,10 @@ class Harness(object):
                     for suffix in ("a", "n", "b"):
                         if self.execs.get(tok + suffix, 0) != 1:
                             v.append(("C12/request-executed-%d-times" % self.execs.get(tok + suffix, 0), "%s: job %s ran %d times" % (where, suffix, self.execs.get(tok + suffix, 0))))
-                elif kind == "invalid":
+                elif kind == "sysexit":
+                    if not (res[0] == "protocol-error" and res[1] == -32603):
+                        v.append(("C12/failing-method-not-answered-32603", "%s (method raising SystemExit) got %r" % (where, res)))
+                elif kind in ("invalid", "truncated"):
                     ok = res[0] == "raw" and res[1] == 200
                     try:
                         body = json.loads(res[2].decode("utf-8")) if ok else None
@@ -243,6 +278,8 @@ class Harness(object):
                     tok = "c%d-r%d" % (ci, ri)
                     if kind == "notify" and self.results.get((ci, ri), ("x",))[0] == "val" and self.execs.get(tok, 0) != 1:
                         v.append(("C12/request-executed-%d-times" % self.execs.get(tok, 0), "notification of client %d ran %d times" % (ci, self.execs.get(tok, 0))))
+        if netsched.EVENTS:
+            v.append(("C12/%s" % netsched.EVENTS[0], "environment observed: %r" % (netsched.EVENTS[:3],)))
         if not self.srv.socket.closed:
             v.append(("C12/listening-socket-open-after-server_close", "the listening socket is still open"))
         if self.server_kind == "pooled":
@@ -268,7 +305,7 @@ SERVERS = [("simple", None), ("pooled", None), ("pooled", (1, 1)), ("pooled", (1
 
 def harnesses(tier):
     h = []
-    one = [(("call", "call"),), (("invalid", "call"),), (("fail", "call"),), (("notify", "call"),), (("batch",),)]
+    one = [(("call", "call"),), (("invalid", "call"),), (("fail", "call"),), (("notify", "call"),), (("batch",),), (("truncated", "call"),), (("sysexit", "call"),)]
     two = [(("call",), ("call",)), (("call",), ("notify",)), (("batch",), ("call",)), (("invalid",), ("call",)), (("fail",), ("call",))]
     lifes = [("close-without-serving", ()), ("double", (("call",),)), ("close-with-inflight", (("slow",),)), ("normal", ())]
     if tier == "quick":
@@ -317,7 +354,7 @@ META = {
     "technique": "stateless model checking of the real servers, request handler and clients over an in-memory network whose blocking operations are "
     "scheduling points: exhaustive schedule enumeration with iterative preemption bounding, non-termination decided by the scheduler's deadlock verdict",
     "rule": "harness = server (Simple, Pooled with default pool (30,0) or user pools (1,1) (1,0) (2,0)) x listener (TCP, Unix) x client programs (1-2 clients "
-    "(thorough 3), 1-2 requests each from {call, notification, batch, malformed body, failing method, gated slow method}) x life-cycle (serve/shutdown/"
+    "(thorough 3), 1-2 requests each from {call, notification, batch, malformed body, truncated body with half-close, failing method, method raising SystemExit, gated slow method}) x life-cycle (serve/shutdown/"
     "server_close, server_close without serving, double shutdown and close, shutdown with a gated request in flight); every schedule up to the per-harness "
     "completed preemption level; non-trivial = execution with a choice point",
     "bounds": {"quick": {"clients": 2, "levels": "K=1 for request mixes, K=2 for life-cycle programs (per-harness level in notes.completed_bounds)"},
